@@ -587,7 +587,8 @@ func genSoup(r *vlib.Rng, n int, depth int) string {
 func genValue(r *vlib.Rng) string {
 	s := genSoup(r, r.Range(0, 3), 3)
 	if r.Chance(1, 3) {
-		s += vlib.Pick(r, []string{"!important", " ! important", "!IMPORTANT ", "!/**/important/**/", "!important!", "!important !important", "! x", "!important x", "{}", " {} ", "x {}", "! !important", "!!important", "! x !important", "!important/**/!/**/important", "!importan", "! {} !important"})
+		s += vlib.Pick(r, []string{"!important", " ! important", "!IMPORTANT ", "!/**/important/**/", "!important!", "!important !important", "! x", "!important x", "{}", " {} ", "x {}", "! !important", "!!important", "! x !important", "!important/**/!/**/important", "!importan", "! {} !important",
+			"{} x", "! {}", "{} !important", "!important {}", "{}{}", "/**/{}/**/", " {} /**/ ", "{} !", "{}!important x", "{a:b} c", "! important {}"})
 	}
 	return s
 }
